@@ -1,0 +1,13 @@
+//go:build verif
+
+package rueidis
+
+// Access for the /verif correspondence harness of the batched cache reads (pipe.go
+// doCacheMGet / DoMultiCache). Add-only; compiled only with -tags verif.
+
+// VerifMGetEmptyResult is the test the refill loops of DoMultiCache use to recognise a
+// slot that still has to be filled: results.s[j].val.typ == 0 && results.s[j].err == nil.
+func VerifMGetEmptyResult(r RedisResult) bool { return r.val.typ == 0 && r.err == nil }
+
+// VerifMGetEmptyMessage is the same test for doCacheMGet: values()[j].typ == 0.
+func VerifMGetEmptyMessage(m RedisMessage) bool { return m.typ == 0 }
